@@ -2,6 +2,7 @@
 package c01
 
 import (
+	"fmt"
 	"math/rand"
 	"sort"
 	"testing"
@@ -91,4 +92,73 @@ func TestShrinkingExplicitEnd(t *testing.T) {
 func TestAdjacentLabelBoundaries(t *testing.T) {
 	sub := vf.Cur().Sub("adjacent-label-boundaries", sprintf(rule, "targeted: two alerts of one group whose label names and values concatenate to the same text ({disk=\"1a\"} / {disk1=\"a\"}, ...); the second starts firing after the first was notified and must be notified like any new member"), 10)
 	sysrun.Run(t, "C01", sub, sysrun.Family{Name: "adj", Quick: 40, Thorough: 1500, NonTrivial: nt, Gen: scen.AdjacentLabelBoundaries}, checkers)
+}
+
+// reloadsAcrossGC: configuration reloads separated by ticks of the alert provider's collector (which also
+// tidies up the subscriptions of stopped dispatchers and inhibitors), and alerts that start firing only
+// after each reload: every new dispatcher must be fed by the provider.
+func reloadsAcrossGC(r *rand.Rand) *scen.Scenario {
+	gw, gi, ri := 5*time.Second, 30*time.Second, 4*time.Hour
+	gb := []string{"alertname"}
+	cfg := &scen.Config{ResolveTimeout: 5 * time.Minute,
+		Route:     &model.RouteSpec{Receiver: "r0", GroupBy: &gb, GroupWait: &gw, GroupInterval: &gi, RepeatInterval: &ri},
+		Receivers: []scen.Receiver{{Name: "r0", Integs: []scen.Integ{{SendResolved: true}}}},
+		Inhibit:   []model.InhibitRule{{Source: []model.Matcher{{Name: "sev", Op: "=", Value: "none"}}, Target: []model.Matcher{{Name: "sev", Op: "=", Value: "x"}}, Equal: []string{"alertname"}}}}
+	gcI := gen.Pick(r, []time.Duration{time.Minute, 5 * time.Minute, 30 * time.Minute})
+	s := &scen.Scenario{Config: cfg, Duration: 8*gcI + 20*time.Minute, Retention: 120 * time.Hour, MaintenanceInterval: 15 * time.Minute, AlertGCInterval: gcI}
+	end := 5 * time.Minute
+	at := 10 * time.Second
+	for k := 0; k < 6; k++ {
+		// a reload somewhere in this collector period, then a new alert that only the new dispatcher can pick up
+		at = time.Duration(k)*gcI + time.Duration(5+r.Intn(40))*gcI/60 + time.Duration(r.Intn(900))*time.Millisecond
+		if r.Intn(5) > 0 {
+			s.Ops = append(s.Ops, scen.Op{At: at, Kind: "reload", Config: cfg})
+		}
+		l := model.Labels{"alertname": fmt.Sprintf("N%d", k), "sev": "crit"}
+		for p := at + time.Duration(1+r.Intn(20))*time.Second; p < s.Duration-6*time.Minute; p += 2 * time.Minute {
+			s.Ops = append(s.Ops, scen.Op{At: p + time.Duration(k)*time.Millisecond, Kind: "alerts", Alerts: []scen.PostSpec{{Labels: l, EndOff: &end}}})
+		}
+	}
+	sort.SliceStable(s.Ops, func(i, j int) bool { return s.Ops[i].At < s.Ops[j].At })
+	for i := 1; i < len(s.Ops); i++ {
+		if s.Ops[i].At <= s.Ops[i-1].At {
+			s.Ops[i].At = s.Ops[i-1].At + time.Millisecond
+		}
+	}
+	return s
+}
+
+func TestReloadsAcrossGC(t *testing.T) {
+	sub := vf.Cur().Sub("reloads-across-provider-gc", sprintf(rule, "targeted: six periods of the alert provider's collector (1, 5 or 30 min), a reload of the identical configuration (with an inhibition rule, so that every reload stops and starts a dispatcher AND an inhibitor subscription) in most of them, and an alert that starts firing a few seconds after each reload and is re-sent every 2 min"), 10)
+	sysrun.Run(t, "C01", sub, sysrun.Family{Name: "relgc", Quick: 40, Thorough: 2000, NonTrivial: nt, Gen: reloadsAcrossGC}, checkers)
+}
+
+// heartbeats: what a client does that keeps the alert's original start and leaves the end to the server:
+// every re-send carries the same explicit startsAt and no endsAt, for far longer than resolve_timeout.
+func heartbeats(r *rand.Rand) *scen.Scenario {
+	gw, gi, ri := 5*time.Second, gen.Pick(r, []time.Duration{30 * time.Second, 2 * time.Minute}), 4*time.Hour
+	gb := []string{"alertname"}
+	rt := gen.Pick(r, []time.Duration{time.Minute, 5 * time.Minute})
+	cfg := &scen.Config{ResolveTimeout: rt,
+		Route:     &model.RouteSpec{Receiver: "r0", GroupBy: &gb, GroupWait: &gw, GroupInterval: &gi, RepeatInterval: &ri},
+		Receivers: []scen.Receiver{{Name: "r0", Integs: []scen.Integ{{SendResolved: true}}}}}
+	s := &scen.Scenario{Config: cfg, Duration: 8 * rt, Retention: 120 * time.Hour, MaintenanceInterval: 15 * time.Minute}
+	first := 7*time.Second + time.Duration(r.Intn(900))*time.Millisecond
+	// the alert started before the first post (as after a restart of the sender), by less or more than resolve_timeout
+	age := gen.Pick(r, []time.Duration{0, 20 * time.Second, 2 * rt, 10 * rt})
+	l := model.Labels{"alertname": "HB", "instance": fmt.Sprint(r.Intn(3))}
+	for at := first; at < s.Duration-2*rt; at += rt / 3 {
+		so := -(at - first) - age
+		s.Ops = append(s.Ops, scen.Op{At: at, Kind: "alerts", Alerts: []scen.PostSpec{{Labels: l, StartOff: &so}}})
+	}
+	if r.Intn(2) == 0 {
+		s.Ops = append(s.Ops, scen.Op{At: 3*rt + 1500*time.Millisecond, Kind: "reload", Config: cfg})
+		sort.SliceStable(s.Ops, func(i, j int) bool { return s.Ops[i].At < s.Ops[j].At })
+	}
+	return s
+}
+
+func TestHeartbeats(t *testing.T) {
+	sub := vf.Cur().Sub("heartbeats-with-a-stable-start", sprintf(rule, "targeted: one alert re-sent every resolve_timeout/3 for 6 resolve_timeouts, every time with the same explicit startsAt (0 s to 10 resolve_timeouts before the first submission) and WITHOUT endsAt; half of the cases with a reload in the middle; it is firing throughout and for one more resolve_timeout after the last re-send"), 10)
+	sysrun.Run(t, "C01", sub, sysrun.Family{Name: "hb", Quick: 40, Thorough: 2000, NonTrivial: nt, Gen: heartbeats}, checkers)
 }
